@@ -14,7 +14,8 @@ Tie (five differential streams against the real code, all batched into one drive
 
 Oracle (independent of the Lean driver, on every implementation trace): the binding is one-to-one
 case-insensitively and contains every recognisable definition, or a ParseException names a `#Define` line that
-really conflicts; the parser terminates (an observed include cycle = it never does); batch == one-at-a-time
+really conflicts (or whose index cannot be converted); the parser terminates (open() budget as watchdog; exhausting it on an
+include cycle the parser itself resolved = it never would); batch == one-at-a-time
 (registers, returned values, value types) and touches exactly the bound registers.
 """
 from __future__ import annotations
@@ -231,7 +232,8 @@ _O_ELEM = re.compile(r"(?i:data_)(.*?)[\x1c-\x1f\s]*\[[\x1c-\x1f\s]*([0-9]+)[\x1
 
 
 def o_defs(symbols):
-    """[(sym, space, name, target)] in order; space 'data'|'par'; target = ('D',n) | ('P',n) | ('F',n) | ('E',arrname,k).
+    """[(sym, space, name, target)] in order; space 'data'|'par'; target = ('D',n) | ('P',n) | ('F',n) | ('E',arrname,k)
+    | ('X',) for a definition whose index int() cannot convert (more than 4300 digits: must be rejected).
     Unrecognisable definitions are left out (the parser only warns about them)."""
     out = []
     for s in symbols:
@@ -239,17 +241,19 @@ def o_defs(symbols):
         up = lab.upper()
         if up.startswith("DATA_"):
             m = _O_IDX.fullmatch(s.value)
-            if m and m.group(1).lower() == "data" and len(m.group(2)) <= 4300:
-                out.append((s, "data", lab[5:], ("D", int(m.group(2)))))
+            if m and m.group(1).lower() == "data":
+                out.append((s, "data", lab[5:], ("D", int(m.group(2))) if len(m.group(2)) <= 4300 else ("X",)))
         elif up.startswith("PAR_"):
             m = _O_IDX.fullmatch(s.value)
             if m and m.group(1).lower() in ("par", "fpar"):
                 if len(m.group(2)) <= 4300:
                     out.append((s, "par", lab[4:], ("P" if m.group(1).lower() == "par" else "F", int(m.group(2)))))
+                else:
+                    out.append((s, "par", lab[4:], ("X",)))
                 continue
             m = _O_ELEM.fullmatch(s.value)
-            if m and m.group(1) and not re.search(r"[\x1c-\x1f\s]", m.group(1)) and len(m.group(2)) <= 4300:
-                out.append((s, "par", lab[4:], ("E", m.group(1), int(m.group(2)))))
+            if m and m.group(1) and not re.search(r"[\x1c-\x1f\s]", m.group(1)):
+                out.append((s, "par", lab[4:], ("E", m.group(1), int(m.group(2))) if len(m.group(2)) <= 4300 else ("X",)))
     return out
 
 
@@ -257,10 +261,12 @@ def o_violation(defs, upto=None):
     """First definition (index into defs) that breaks one-to-one-ness against an earlier one, with a reason."""
     arrays = {}       # upper name -> (name, index)   (from *all* data definitions: the parser makes two passes)
     for (_s, sp, name, tgt) in defs:
-        if sp == "data":
+        if sp == "data" and tgt[0] == "D":
             arrays.setdefault(name.upper(), tgt[1])
     seen = {"data": [], "par": []}
     for i, (s, sp, name, tgt) in enumerate(defs):
+        if tgt[0] == "X":
+            return i, "invalid-index"
         if sp == "par" and tgt[0] == "E":
             if tgt[1].upper() not in arrays:
                 return i, "unknown-array"
@@ -293,6 +299,8 @@ def oracle_binding(symbols, outcome):
                 return f"binding:two-{space}-names-denote-one-register", repr(dup)
         arr_by_up = {k.upper(): v for k, v in info.data.items()}
         for (s, sp, name, tgt) in defs:
+            if tgt[0] == "X":
+                return "binding:accepted-definition-with-unconvertible-index", f"{s.label}"
             if sp == "data":
                 if info.data.get(name) != tgt[1]:
                     return "binding:data-definition-missing-or-wrong", f"{s.label} {s.value}"
@@ -346,6 +354,7 @@ _MSG = [
     (re.compile(r"^Duplicate definition of symbol (.*) for different (?:data array|parameter)$", re.S), "dup-target", False),
     (re.compile(r"^Symbol (.*) is a duplicate reference to (.*)$", re.S), "dup-ref", True),
     (re.compile(r"^Symbol (.*) refers to unknown array (.*)$", re.S), "unknown-array", True),
+    (re.compile(r"^Invalid index in definition of symbol (.*)$", re.S), "invalid-index", False),
 ]
 
 
@@ -360,6 +369,7 @@ def canon_parse_exc(e, sym=None) -> str:
             f"Duplicate definition of symbol {lab} with different case": "dup-case",
             f"Duplicate definition of symbol {lab} for different data array": "dup-target",
             f"Duplicate definition of symbol {lab} for different parameter": "dup-target",
+            f"Invalid index in definition of symbol {lab}": "invalid-index",
         }
         if msg in fixed:
             return f"{head} {fixed[msg]} {hx(lab)} -"
@@ -1196,7 +1206,7 @@ def oracle_ranges(seq, out):
 
 
 # ---------------------------------------------------------------------------
-# fixed corpus (always run first): the include cycle of DESIGN §7(n) and other corner programs
+# fixed corpus (always run first): the include cycle of DESIGN §7(n) (repaired by 48b63c7; kept as regression input) and other corner programs
 # ---------------------------------------------------------------------------
 
 def corpus_programs():
@@ -1341,7 +1351,7 @@ class C20(Prop):
         "functions in the model and differentially checked here; code points restricted to ASCII plus the non-ASCII line separators "
         "(str.upper()/lower() on other code points is not modelled)",
         "text-mode universal newlines, str.splitlines, posixpath.join/dirname/normpath (os.path on this platform), int() with the "
-        "4300-digit limit — written out in the model, differentially checked",
+        "4300-digit limit (ValueError -> ParseException in _parse_index) — written out in the model, differentially checked",
         "the file system: a finite map from normalised path to text; open() resolution approximated by normpath (no symlinks); every "
         "OSError subclass is one error value",
         "the ADwin itself: a total register file (Par, FPar, Data × element); the harness uses the real Adwin_Base driver over a fake "
